@@ -261,7 +261,7 @@ pub struct Names { pub opaques: Vec<String>, pub structs: Vec<String>, pub outst
 
 /// shapes to stay away from (used to look *behind* known findings)
 #[derive(Clone, Copy, Debug, Default)]
-pub struct Avoid { pub noncustom_result_err: bool, pub byte_slices: bool, pub callbacks_on_methods_with_self: bool, pub more_zst: bool, pub opt_unit_write: bool }
+pub struct Avoid { pub noncustom_result_err: bool, pub byte_slices: bool, pub callbacks_on_methods_with_self: bool, pub more_zst: bool, pub opt_unit_write: bool, pub owned_slices: bool, pub strs_params: bool }
 
 pub struct Gen<'a> { pub rng: &'a mut Rng, pub prof: Profile, pub names: Names, pub avoid: Avoid }
 
@@ -290,8 +290,8 @@ impl<'a> Gen<'a> {
                 8 if self.prof.option && !self.names.enums.is_empty() => { let sd = self.sd(); return Ty::Opt(Box::new(Ty::Named(self.rng.pick(&self.names.enums.clone()).clone())), sd) }
                 9 => { let lt = self.in_lt(); let e = self.enc(); let sd = self.sd(); return Ty::Str(Some(lt), e, sd) }
                 10 => { let lt = self.in_lt(); let m = self.rng.chance(1, 4); let p = self.prim(); let sd = self.sd(); return Ty::PSlice(Some((lt, m)), p, sd) }
-                11 => { let e = self.enc(); let sd = self.sd(); return if self.rng.chance(1, 2) { Ty::Str(None, e, sd) } else { Ty::PSlice(None, self.prim(), sd) } }
-                12 => { let e = self.enc(); let sd = self.sd(); return Ty::Strs(e, sd) }
+                11 if !self.avoid.owned_slices => { let e = self.enc(); let sd = self.sd(); return if self.rng.chance(1, 2) { Ty::Str(None, e, sd) } else { Ty::PSlice(None, self.prim(), sd) } }
+                12 if !self.avoid.strs_params => { let e = self.enc(); let sd = self.sd(); return Ty::Strs(e, sd) }
                 13 if depth > 0 && self.prof.option => {
                     let lt = self.in_lt(); let e = self.enc(); let sd = self.sd(); let osd = self.sd();
                     return Ty::Opt(Box::new(if self.rng.chance(1, 2) { Ty::Str(Some(lt), e, sd) } else { Ty::PSlice(Some((lt, false)), self.prim(), sd) }), osd)
@@ -363,7 +363,7 @@ impl<'a> Gen<'a> {
                 4 if !earlier_structs.is_empty() => return Ty::Named(self.rng.pick(earlier_structs).clone()),
                 5 if self.prof.option => return Ty::Opt(Box::new(Ty::Prim(self.prim())), Sd::Dip),
                 6 if self.prof.option && !self.names.enums.is_empty() => return Ty::Opt(Box::new(Ty::Named(self.rng.pick(&self.names.enums.clone()).clone())), Sd::Dip),
-                7 => { let e = self.enc(); return if self.rng.chance(1, 2) { Ty::Str(None, e, Sd::Dip) } else { Ty::PSlice(None, self.prim(), Sd::Dip) } }
+                7 if !self.avoid.owned_slices => { let e = self.enc(); return if self.rng.chance(1, 2) { Ty::Str(None, e, Sd::Dip) } else { Ty::PSlice(None, self.prim(), Sd::Dip) } }
                 _ => continue,
             }
         }
